@@ -105,6 +105,8 @@ struct St {
     funcs: Vec<Option<(Box<dyn Fn(i32) -> i32>, usize, u8)>>,
     /// per package: (runtime index, version) even after the package was dropped
     pkg_info: Vec<(usize, i32)>,
+    /// per package: page-aligned regions and bytes that its compilation left allocated (machine code and data of the JIT)
+    pkg_pages: Vec<(i64, i64)>,
     rt_info: Vec<i32>,
 }
 
@@ -124,7 +126,9 @@ impl WorkerState for W {
         host::reset(vec![]);
         let base = live_by_tag();
         let base_tz = host::live_count().1;
-        let mut st = St { runtimes: vec![], packages: vec![], handles: vec![], funcs: vec![], pkg_info: vec![], rt_info: vec![] };
+        let mut st = St { runtimes: vec![], packages: vec![], handles: vec![], funcs: vec![], pkg_info: vec![], pkg_pages: vec![], rt_info: vec![] };
+        let base_pages = host::page_regions();
+        let mut unwound = false;
         let mut trace: Vec<String> = Vec::new();
         let mut call_after_drop = false;
         let mut recompiled = false;
@@ -155,10 +159,13 @@ impl WorkerState for W {
                         if st.packages.iter().flatten().count() < 4 {
                             let v = 1 + (b % 3) as i32;
                             let rt = &st.runtimes[r].as_ref().unwrap().0;
+                            let pages_before = host::page_regions();
                             let pkg = match compile_version(rt, v) {
                                 Ok(p) => p,
                                 Err(e) => return fail("rejected", e, &trace),
                             };
+                            let pages_after = host::page_regions();
+                            st.pkg_pages.push((pages_after.0 - pages_before.0, pages_after.1 - pages_before.1));
                             if st.pkg_info.iter().any(|(_, pv)| *pv == v) {
                                 recompiled = true;
                             }
@@ -226,6 +233,63 @@ impl WorkerState for W {
                     if let Some(r) = pick(&st.runtimes, a) {
                         st.runtimes[r] = None;
                         trace.push(format!("drop rt{r}"));
+                    }
+                }
+                11 => {
+                    // the owner of a handle / package / closure dies while a panic unwinds its frame
+                    // (resume_unwind: no panic hook, no message)
+                    use std::panic::{AssertUnwindSafe, catch_unwind, resume_unwind};
+                    match b % 3 {
+                        0 => {
+                            if let Some(h) = pick(&st.handles, a) {
+                                let (hh, p, w) = st.handles[h].take().unwrap();
+                                let (r, v) = st.pkg_info[p];
+                                let k = st.rt_info[r];
+                                let want = if w == 0 { 7i32.wrapping_mul(v).wrapping_add(300 + v).wrapping_add(100 + k).wrapping_add(200 + k).wrapping_sub(100) } else { (300 + v).wrapping_sub(7) };
+                                let mut got = 0;
+                                let res = catch_unwind(AssertUnwindSafe(|| {
+                                    let owner = hh;
+                                    got = owner.call(7);
+                                    resume_unwind(Box::new(()));
+                                }));
+                                trace.push(format!("h{h} moved into a frame that calls it ({got}) and then unwinds"));
+                                unwound = true;
+                                if res.is_ok() {
+                                    return fail("harness", "the frame did not unwind".into(), &trace);
+                                }
+                                if got != want {
+                                    return fail("wrong-result", format!("h{h}(7) returned {got}, expected {want}"), &trace);
+                                }
+                            }
+                        }
+                        1 => {
+                            if let Some(p) = pick(&st.packages, a) {
+                                let pkg = st.packages[p].take().unwrap();
+                                let res = catch_unwind(AssertUnwindSafe(|| {
+                                    let _owner = pkg;
+                                    resume_unwind(Box::new(()));
+                                }));
+                                trace.push(format!("pkg{p} moved into a frame that unwinds"));
+                                unwound = true;
+                                if res.is_ok() {
+                                    return fail("harness", "the frame did not unwind".into(), &trace);
+                                }
+                            }
+                        }
+                        _ => {
+                            if let Some(fi) = pick(&st.funcs, a) {
+                                let f = st.funcs[fi].take().unwrap();
+                                let res = catch_unwind(AssertUnwindSafe(|| {
+                                    let _owner = f;
+                                    resume_unwind(Box::new(()));
+                                }));
+                                trace.push(format!("c{fi} moved into a frame that unwinds"));
+                                unwound = true;
+                                if res.is_ok() {
+                                    return fail("harness", "the frame did not unwind".into(), &trace);
+                                }
+                            }
+                        }
                     }
                 }
                 12 => {
@@ -366,6 +430,21 @@ impl WorkerState for W {
                 let sig = if z_now > z_expected { "not-released" } else { "released-too-early" };
                 return fail(sig, format!("{z_now} values of the zero-sized constant `Z: Tz` are alive, {z_expected} packages are still referred to"), &trace);
             }
+            // machine code: what a compilation left allocated in page-aligned regions stays exactly as long as
+            // the package or one of its handles / closures does
+            let mut want_pages = base_pages;
+            for pi in 0..st.pkg_info.len() {
+                let referred = st.packages[pi].is_some() || st.handles.iter().flatten().any(|(_, p, _)| *p == pi) || st.funcs.iter().flatten().any(|(_, p, _)| *p == pi);
+                if referred {
+                    want_pages.0 += st.pkg_pages[pi].0;
+                    want_pages.1 += st.pkg_pages[pi].1;
+                }
+            }
+            let have_pages = host::page_regions();
+            if have_pages != want_pages {
+                let sig = if have_pages.1 > want_pages.1 || have_pages.0 > want_pages.0 { "not-released:machine-code" } else { "released-too-early:machine-code" };
+                return fail(sig, format!("{} page-aligned regions ({} bytes) of JIT memory are allocated; the packages that are still referred to account for {} regions ({} bytes) (per package: {:?})", have_pages.0 - base_pages.0, have_pages.1 - base_pages.1, want_pages.0 - base_pages.0, want_pages.1 - base_pages.1, st.pkg_pages), &trace);
+            }
             let anomalies = host::anomalies();
             if !anomalies.is_empty() {
                 return fail("ownership", format!("{anomalies:?}"), &trace);
@@ -389,6 +468,10 @@ impl WorkerState for W {
         if !anomalies.is_empty() {
             return fail("ownership", format!("{anomalies:?}"), &trace);
         }
+        let end_pages = host::page_regions();
+        if end_pages != base_pages {
+            return fail("not-released:machine-code", format!("after dropping every runtime, package and handle {} page-aligned regions ({} bytes) of JIT memory are still allocated", end_pages.0 - base_pages.0, end_pages.1 - base_pages.1), &trace);
+        }
         let mut o = Outcome::pass();
         o.evals = case.len().max(1) as u64;
         o.nontrivial = call_after_drop || recompiled;
@@ -397,6 +480,12 @@ impl WorkerState for W {
         }
         if recompiled {
             o.classes.push("same-version-compiled-twice".into());
+        }
+        if unwound {
+            o.classes.push("owner-died-during-unwinding".into());
+        }
+        if st.pkg_pages.iter().any(|(n, _)| *n > 0) {
+            o.classes.push("jit-memory-accounted".into());
         }
         let text = trace.join("\n");
         o.hash = fnv(text.as_bytes());
@@ -412,11 +501,11 @@ impl Prop for C11P {
         "C11"
     }
     fn rule(&self) -> String {
-        "histories of up to 40 operations (one proptest chunk each): build runtime k (registers a drop-tracked constant, a closure capturing a tracked value that scripts call, two closures made by one factory (same Rust type, different captured tracked values) that scripts call, and a closure no script uses), compile script version v on a live runtime (two modules each with a constant `K` holding a tracked value, a record constant with a tracked field read through a field, constants whose initialisers leave droppable temporaries, a zero-sized drop-counted constant that is never read; f(x) = x*v + K + REG + host() + host_a() - host_b()), get handle, clone handle, call, drop handle / package / runtime, turn a clone into an `impl Fn` with into_func(), call and drop that closure, move a handle to another thread, call and drop it there, let 2-4 threads clone, call and drop clones of one handle at the same time; oracle after every step: each call returns the model's value for its version and runtime; per tag, tracked values are alive while a runtime, package or handle refers to them, script constants are released as soon as nothing refers to their version, nothing is dropped twice, and after dropping everything the live set equals the initial one. Non-trivial: a call happens after the package and/or runtime that produced the handle were dropped, or the same script version was compiled more than once; distinct by decoded history".into()
+        "histories of up to 40 operations (one proptest chunk each): build runtime k (registers a drop-tracked constant, a closure capturing a tracked value that scripts call, two closures made by one factory (same Rust type, different captured tracked values) that scripts call, and a closure no script uses), compile script version v on a live runtime (two modules each with a constant `K` holding a tracked value, a record constant with a tracked field read through a field, constants whose initialisers leave droppable temporaries, a zero-sized drop-counted constant that is never read; f(x) = x*v + K + REG + host() + host_a() - host_b()), get handle, clone handle, call, drop handle / package / runtime, turn a clone into an `impl Fn` with into_func(), call and drop that closure, move a handle to another thread, call and drop it there, let 2-4 threads clone, call and drop clones of one handle at the same time, move a handle / package / closure into a frame that unwinds (the owner dies during a panic); oracle after every step: the page-aligned regions of the global allocator that are alive (JIT machine code and data; counted by the harness allocator) are exactly those the compilations of the packages still referred to left behind, neither fewer (released too early) nor more (not released); each call returns the model's value for its version and runtime; per tag, tracked values are alive while a runtime, package or handle refers to them, script constants are released as soon as nothing refers to their version, nothing is dropped twice, and after dropping everything the live set equals the initial one. Non-trivial: a call happens after the package and/or runtime that produced the handle were dropped, or the same script version was compiled more than once; distinct by decoded history".into()
     }
     fn assumptions(&self) -> Vec<String> {
         vec![
-            "a use-after-free of JIT memory may still return the right value (freed but still mapped memory); the worker isolates crashes".into(),
+            "a use-after-free of JIT memory may still return the right value (freed but still mapped memory); the worker isolates crashes; release of machine code is observed as the deallocation of cranelift-jit's page-aligned regions through the harness's global allocator".into(),
             "liveness is tracked per tag, so an implementation may keep one shared or several cloned instances".into(),
         ]
     }
